@@ -512,7 +512,7 @@ fn main() {
     }
 
     let mut run = Run::new("C20", tier, seed);
-    run.technique = "enumeration of the five advertised feature sets (each built from /repo's working tree) + proptest random search with shrinking over accumulation histories: serialise (JSON, CBOR) -> deserialise -> compare -> continue accumulating on both".into();
+    run.technique = "enumeration of the five advertised feature sets (each built from /repo's working tree) and of the Serialize/Deserialize bounds of every listed type under std+serde alone (probe crate) + proptest random search with shrinking over accumulation histories: serialise (JSON, CBOR) -> deserialise -> compare -> continue accumulating on both".into();
     run.rule = "feature sets {default, std, std+approx, std+serde, all} built with cargo; histories (append / extend / merge by + and +=, values chosen to leave non-zero compensation terms) for Arithmetic, Geometric, Harmonic (f32/f64), Paired, Unpaired, proportion::Stats, then a generated suffix applied to the original and the restored state; Confidence and Interval<f64|i32|String> of all kinds; non-trivial = state with >= 3 observations and a non-zero compensation term (or a proportion state), a one-sided interval or a non-default confidence".into();
     // feature builds
     for row in &build_rows {
@@ -523,13 +523,14 @@ fn main() {
         run.obs.sample(&format!("feature_build/{name}"), || json!({"feature_set": name, "cargo_args": row["cargo_args"], "ok": row["ok"], "seconds": row["seconds"]}));
         if row["ok"] != true {
             let f = engine::Fail { sig: format!("C20/feature_build/{name}"), msg: format!("cargo build {} fails: {}", row["cargo_args"], row["errors"]) };
-            run.obs.report("feature_build", || json!({"feature_set": name, "command": format!("cd /repo && cargo build --offline --lib {}", row["cargo_args"].as_str().unwrap_or("")), "compiler_output": row["log_tail"]}), &f);
+            let command = row["command"].as_str().map(|s| s.to_string()).unwrap_or_else(|| format!("cd /repo && cargo build --offline --lib {}", row["cargo_args"].as_str().unwrap_or("")));
+            run.obs.report("feature_build", || json!({"feature_set": name, "command": command, "compiler_output": row["log_tail"]}), &f);
         }
     }
-    if build_rows.len() == 5 {
-        run.exhaustive_parts.push("all five advertised feature sets".into());
+    if build_rows.len() == 6 {
+        run.exhaustive_parts.push("all five advertised feature sets, and the trait bounds of every listed type under std+serde (probe crate)".into());
     } else {
-        run.infra_errors.push(format!("expected 5 feature builds, got {}", build_rows.len()));
+        run.infra_errors.push(format!("expected 6 build rows (5 feature sets + the std+serde trait probe), got {}", build_rows.len()));
     }
     let (n, shards) = match tier {
         Tier::Quick => (40_000u32, 32usize),
@@ -543,7 +544,7 @@ fn main() {
     for t in TYPES {
         run.require_class(&format!("state/{t}"));
     }
-    for c in ["Interval/degenerate", "state-of-(nearly)-constant-sample", "state-with-count>=2^32", "state-with-nonzero-compensation", "Interval<f64>/upper", "Interval<i32,String>/lower", "Confidence/upper one-sided", "feature_build/std_serde", "feature_build/all"] {
+    for c in ["Interval/degenerate", "state-of-(nearly)-constant-sample", "state-with-count>=2^32", "state-with-nonzero-compensation", "Interval<f64>/upper", "Interval<i32,String>/lower", "Confidence/upper one-sided", "feature_build/std_serde", "feature_build/all", "feature_build/std_serde_traits"] {
         run.require_class(c);
     }
     run.assumptions.push("serde_json is built with float_roundtrip (otherwise its parser may be 1 ulp off and the harness, not the crate, would fail); CBOR via ciborium carries floats bit-exactly".into());
